@@ -657,9 +657,17 @@ impl VisitMut for Normalizer {
         }
         // `ITER.try_for_each(|P| { BODY; Ok(()) })?;` / `ITER.for_each(|P| BODY);`  ->  `for P in ITER { BODY }`
         // (a `?` inside the closure ends the traversal and is propagated by the outer `?`, as it ends the loop)
-        for st in b.stmts.iter_mut() {
+        let n_stmts = b.stmts.len();
+        let mut tail_ok_needed = false;
+        for (st_ix, st) in b.stmts.iter_mut().enumerate() {
             let rewritten: Option<syn::Stmt> = (|| {
-                let syn::Stmt::Expr(e, Some(_)) = &*st else { return None };
+                // statement `ITER.try_for_each(..)?;` / `ITER.for_each(..);`, or `ITER.try_for_each(..)` as the value of
+                // the block (then `Ok(())` follows the loop)
+                let (e, as_tail) = match &*st {
+                    syn::Stmt::Expr(e, Some(_)) => (e, false),
+                    syn::Stmt::Expr(e, None) if st_ix + 1 == n_stmts && matches!(e, syn::Expr::MethodCall(mc) if mc.method == "try_for_each") => (e, true),
+                    _ => return None,
+                };
                 let (mc, tried) = match e {
                     syn::Expr::Try(t) => match &*t.expr {
                         syn::Expr::MethodCall(mc) => (mc, true),
@@ -668,6 +676,7 @@ impl VisitMut for Normalizer {
                     syn::Expr::MethodCall(mc) => (mc, false),
                     _ => return None,
                 };
+                let tried = tried || as_tail;
                 let want = if tried { "try_for_each" } else { "for_each" };
                 if mc.method != want || mc.args.len() != 1 || !mc.attrs.is_empty() {
                     return None;
@@ -684,8 +693,13 @@ impl VisitMut for Normalizer {
                     syn::Expr::Block(bb) => bb.block.stmts.clone(),
                     other => vec![syn::Stmt::Expr(other.clone(), Some(Default::default()))],
                 };
+                // inside the closure `return Err(e)` ends the traversal with that error, which the enclosing `?` (or
+                // the tail position) hands to the caller: in the loop it is the same `return Err(e)`; any other
+                // `return` (`return Ok(())` = next element) has no loop counterpart here
                 let body_t: String = body.iter().map(|s| sm::tsc(s)).collect();
-                if body_t.contains("return") {
+                let returns = body_t.matches("return").count();
+                let err_returns = body_t.matches("returnErr(").count();
+                if returns != err_returns || (!tried && returns > 0) {
                     return None;
                 }
                 if tried {
@@ -698,11 +712,17 @@ impl VisitMut for Normalizer {
                     *semi = Some(Default::default());
                 }
                 let iter = &mc.receiver;
+                if as_tail {
+                    tail_ok_needed = true;
+                }
                 syn::parse2::<syn::Stmt>(quote::quote! { for #pat in #iter { #(#body)* } }).ok()
             })();
             if let Some(n) = rewritten {
                 *st = n;
             }
+        }
+        if tail_ok_needed {
+            b.stmts.push(syn::Stmt::Expr(syn::parse_quote!(Ok(())), None));
         }
         // `X.extend(ITER.map(|P| BODY));`  ->  `for P in ITER { X.push(BODY); }`
         for st in b.stmts.iter_mut() {
